@@ -265,12 +265,28 @@ pub fn witness(name: &str) -> Option<Project> {
                 ep("Query", "Home"),
             ])
         }
+        // two refetchable selections of one field name in ONE reader at paths P = [friend] and
+        // Q = [best, friend]: P is a proper suffix of Q and Q sorts before P, so an index lookup that
+        // matches path suffixes instead of whole paths picks Q's query for P
+        "suffix-paths" => project(vec![
+            cf(
+                "User",
+                "Card",
+                vec![],
+                vec![
+                    Selection::Linked(head("best", vec![]), vec![sc("name"), sc("__refetch"), Selection::Linked(head("friend", vec![]), vec![sc("age"), sc("__refetch")])]),
+                    Selection::Linked(head("friend", vec![]), vec![sc("name"), sc("age"), sc("__refetch"), Selection::Linked(head("best", vec![]), vec![sc("__refetch")])]),
+                ],
+            ),
+            cf("Query", "Home", vec![], vec![Selection::Linked(head("me", vec![]), vec![sc("Card")])]),
+            ep("Query", "Home"),
+        ]),
         _ => return None,
     })
 }
 
 pub const NAMES: &[&str] =
-    &["plain", "f12", "f12b", "f13", "f11neg", "f11collide", "f18", "f18sorted", "reuse", "nonnull-list-var", "pointer-var", "var-default", "abstract-loadable"];
+    &["plain", "f12", "f12b", "f13", "f11neg", "f11collide", "f18", "f18sorted", "reuse", "nonnull-list-var", "pointer-var", "var-default", "abstract-loadable", "suffix-paths"];
 
 pub fn main(args: &[String]) {
     let name = args.first().map(|s| s.as_str()).unwrap_or("");
